@@ -580,6 +580,23 @@ def registries_are_separate_along_a_path(col):
     col.case(('registries-separate', 'custom-sees-its-own'), True)
     if not (got_custom.ok and got_custom.value == ('custom', 'root')):
         col.violation('C01/registered-get-handler-not-used:own-registration', 'Glommer with Node registered: %r' % (got_custom,), None)
+    # the access registered for a type applies from the registration on - also to instances of its subclasses that the same
+    # registry walked before (with whatever applied then)
+    warm = Glommer()
+    sub_target = lambda: {'r': SubNode('sub', x=Node('leaf'))}
+    before = call(warm.glom, sub_target(), 'r.name')
+    warm.register(Node, get=tagged)
+    for spec, want in (('r.name', ('ok', ('custom', 'sub'))), (Path('r', 'x'), ('ok', ('custom', sub_target()['r'].x))), ('r.nope.q', ('pae', 1))):
+        got = call(warm.glom, sub_target(), spec)
+        col.case(('registries-separate', 'registered-after-a-walk', short(spec)), True)
+        col.count('valid_paths' if want[0] == 'ok' else 'failing_paths')
+        if want[0] == 'ok':
+            ok = got.ok and isinstance(got.value, tuple) and got.value[0] == 'custom'
+        else:
+            ok = (not got.ok) and isinstance(got.exc, PathAccessError) and got.exc.part_idx == want[1]
+        if not ok or not (before.ok and before.value == 'sub'):
+            col.violation('C01/registered-get-handler-not-used:registered-after-an-earlier-walk', 'Glommer: %r on a SubNode gave %r, then register(Node, get=tagged), '
+                          'then %r gives %r (expected the tagged access of the registered base class)' % ('r.name', before, spec, got), None)
     for name, runner in (('busy', busy.glom), ('idle', idle.glom), ('created-afterwards', fresh.glom), ('glom', G)):
         for spec, want in cases:
             got = call(runner, mk(), spec)
